@@ -1507,16 +1507,20 @@ def run_callforms(rep: Report, task):
             continue
         rep.count("callform_assignments")
         reported = {}       # omitted options -> kinds of failure of the plain form (keyword, run()) with these omissions
+        by_variant = {}     # (positional prefix, mesh by keyword, start) -> kinds of failure of that variant with nothing omitted
         for (om, npos, mesh_kw, start) in _call_forms(values):
             plain = npos == 0 and not mesh_kw and start == "run"
             failures = []
 
             def fail(subcheck, callee, kind, cls, detail):
                 """one fingerprint per cause: a failure of a variant (positional / mesh by keyword / started by call) that the plain form with
-                the same omissions shows too, of any form that the fully explicit call shows too, and of a joint omission that the omission of
-                one of its options alone shows too, is the same defect and is not reported again"""
+                the same omissions or the same variant without omissions shows too, of any form that the fully explicit call shows too, and of
+                a joint omission that the omission of one of its options alone shows too, is the same defect and is not reported again"""
                 failures.append(kind)
+                if not om:
+                    by_variant.setdefault((npos, mesh_kw, start), set()).add(kind)
                 if ((not plain and kind in reported.get(om, ())) or (om and kind in reported.get((), ()))
+                        or (om and not plain and kind in by_variant.get((npos, mesh_kw, start), ()))
                         or (len(om) > 1 and any(kind in reported.get((q,), ()) for q in om))):
                     rep.count("callform_failure_attributed_to_simpler_form")
                     return
